@@ -674,6 +674,9 @@ pub struct Gen<'a, 'd> {
     /// field access / match only on types of directly imported packages
     pub ctx: &'a mut Ctx,
     tmp: u32,
+    /// nesting of literal construction (recursive types: beyond 4 levels the constructor with the fewest
+    /// nominal payloads is taken, so construction ends even when the choice bytes are used up)
+    nest: u32,
 }
 
 #[derive(Clone)]
@@ -1084,7 +1087,12 @@ impl<'a, 'd> Gen<'a, 'd> {
                     return Expr::Int(0);
                 }
                 if let Some(fs) = self.proj.struct_fields(&r).cloned() {
+                    if self.nest > 60 {
+                        return Expr::Int(0);
+                    }
+                    self.nest += 1;
                     let fields = fs.iter().map(|(fname, ft)| (fname.clone(), self.expr(sc, ft, depth))).collect();
+                    self.nest -= 1;
                     Expr::StructLit(r, fields)
                 } else {
                     self.ctor_of(sc, &r, t, depth)
@@ -1108,8 +1116,20 @@ impl<'a, 'd> Gen<'a, 'd> {
         if ok.is_empty() {
             return Expr::Int(0);
         }
-        let (v, ts) = ok[self.d.below(ok.len())].clone();
+        let nominal = |ts: &Vec<Ty>| ts.iter().filter(|x| x.nominal().is_some()).count();
+        let k = if self.nest > 4 {
+            (0..ok.len()).min_by_key(|i| nominal(&ok[*i].1)).unwrap_or(0)
+        } else {
+            self.d.below(ok.len())
+        };
+        let (v, ts) = ok[k].clone();
+        if self.nest > 60 && nominal(&ts) > 0 {
+            // a type without a finite value cannot be generated; never loop
+            return Expr::Int(0);
+        }
+        self.nest += 1;
         let args = ts.iter().map(|x| self.expr(sc, x, depth)).collect();
+        self.nest -= 1;
         Expr::Ctor(r.clone(), v, args)
     }
 
@@ -1824,7 +1844,7 @@ pub fn gen_project_sized(d: &mut Dec, ctx: &mut Ctx, min_libs: usize, max_libs: 
             }
         }
     }
-    let mut g = Gen { d, proj: Project { pkgs, counter: 0 }, ctx, tmp: 0 };
+    let mut g = Gen { d, proj: Project { pkgs, counter: 0 }, ctx, tmp: 0, nest: 0 };
     for p in (1..=nlibs).rev() {
         g.gen_pkg(p);
     }
